@@ -53,6 +53,25 @@ def build(rng, tier):
                     b'POST /form-multipart-enctype-post-method HTTP/1.1\r\nContent-Type: multipart/form-data; boundary=B\r\n\r\n--B\r\nContent-Disposition: form-data; name="a"\r\n\r\n\xff\r\n--B--\r\n']:
             for entry in ('proc', 'preq'):
                 cases.append(K.mk(tree, '?', '?', entry=entry, raw=raw, kind='corpus'))
+        # long targets / header values with a multi-byte character at every offset around the lengths a
+        # logger or a fixed-size field would cut at (64, 128, 255, 256, 512, 1024)
+        p0 = rng.choice(paths)
+        for cut in (64, 128, 255, 256, 257, 512, 1024):
+            for ch in ('é', '€', '\U0001F600'):
+                for off in (0, 1, 2, 3):
+                    k = cut - 1 - off
+                    cases.append(K.mk(tree, 'GET', '/' + 'a' * k + ch + 'b' * 40, [], entry='proc', kind='long-multibyte-target'))
+                    if off < 2:
+                        cases.append(K.mk(tree, 'GET', p0, [('Cookie', 'c' * (k + 1) + ch + 'd' * 40)], entry=rng.choice(['proc', 'preq']), kind='long-multibyte-header'))
+        # very many small units inside the buffer, and inside a much larger configured buffer
+        mp_head = b'POST /form-multipart-enctype-post-method HTTP/1.1\r\nContent-Type: multipart/form-data; boundary=%s\r\n\r\n'
+        wf = b''.join(b'--B\r\nContent-Disposition: form-data; name="f%d"\r\n\r\nv\r\n' % i for i in range(170)) + b'--B--\r\n'
+        cases.append(K.mk(tree, 'POST', '/form-multipart-enctype-post-method', raw=(mp_head % b'B') + wf, kind='many-parts'))
+        cases.append(K.mk(tree, 'POST', '/form-multipart-enctype-post-method', raw=(mp_head % b'X') + b'X\n' + b'a:1\n\nX\n' * 1400, kind='many-parts'))
+        if ti == 0:
+            cases.append(K.mk(tree, 'POST', '/form-multipart-enctype-post-method', raw=(mp_head % b'X') + b'X\n' + b'a:1\n\nX\n' * 40000, alloc=400000, kind='many-parts-big-buffer'))
+            cases.append(K.mk(tree, 'GET', '/', raw=b'GET ' + p0.encode('utf-8', 'surrogateescape') + b' HTTP/1.1\r\n' + b'a: b\r\n' * 60000 + b'\r\n', alloc=400000, kind='many-headers-big-buffer'))
+            cases.append(K.mk(tree, 'POST', '/form-url-encoded-enctype-post-method', raw=b'POST /form-url-encoded-enctype-post-method HTTP/1.1\r\nContent-Type: application/x-www-form-urlencoded\r\n\r\n' + b'&'.join(b'k%d=v' % i for i in range(30000)), alloc=400000, kind='many-fields-big-buffer'))
         cases.append(Case_read_error(tree))
         batches.append((tree, cases))
     return batches
